@@ -426,7 +426,7 @@ def _trunc_job(args):
         r = trunc.trunc_path(e, p, opts)
         bad = [k for k, v in r['claims'].items() if v in ('undecided', 'bound-refuted', 'differs-on-generic-path')]
         if bad:
-            found, npc = trunc.numeric_check(e, p, bad, n=opts.get('trunc_samples', 42), seed=opts.get('seed', 0), hints=r.get('sigma_hints', ()))
+            found, npc = trunc.numeric_check(e, p, bad, n=opts.get('trunc_samples', 42), seed=opts.get('seed', 0), hints=r.get('sigma_hints', ()), degrees={k: (v or {}).get('box_degree', 1) for k, v in (r.get('monomials') or {}).items()})
             r['numeric'] = {k: {'inputs': {e.nodes[i].name: float(v) for i, v in f[0].items()}, 'inputs_hex': {e.nodes[i].name: float(v).hex() for i, v in f[0].items()}, 'taylor': f[1], 'generic': f[2], 'tol': f[3]} for k, f in found.items()}
             r['numeric_points'] = npc
         st = {'queries': smt.STATS.queries - q0, 'time': smt.STATS.time - t0, 'procs': smt.STATS.procs - p0}
